@@ -871,9 +871,9 @@ func (c *Ctx) evalBinary(st *State, x *ast.BinaryExpr) Val {
 // maps
 
 type mapKeys struct {
-	dom, val, card     string
-	domS, valS, cardS  Sort
-	kS, vS             Sort
+	dom, val, card    string
+	domS, valS, cardS Sort
+	kS, vS            Sort
 }
 
 func (c *Ctx) mapHeap(t types.Type) mapKeys {
